@@ -339,4 +339,48 @@ def chain_source(repo: Repo) -> RuleRun:
 
 chain_source.rule_id = "C11.CHAIN-SOURCE"
 
-RULES = [quad_map_rule, chop_coverage, chop_role, radial_convention, chain_source]
+def mirror_pairing(repo: Repo) -> RuleRun:
+    """Spline-round sketches are assembled from quarters built with permuted corners; corner, side and
+    width arguments of one slot must carry the same index (sibling agreement Disk vs Ring)."""
+    import re
+
+    r = RuleRun(PROP, "C11.MIRROR-PAIRING", floor=2, what="quarter sketches built for merging: corner_k, side_k, width_k permuted together")
+    base = repo.cls("construct.flat.sketches.spline_round.SplineRound")
+    n = 0
+    for cls in sorted(repo.subclasses(base), key=lambda c: c.qualname):
+        init = cls.methods.get("__init__")
+        if init is None:
+            continue
+        for c in walk_shallow(init.node):
+            if not (isinstance(c, ast.Call) and isinstance(c.func, ast.Name)):
+                continue
+            tgt = repo.resolve_name(cls.module, c.func.id)
+            if not (isinstance(tgt, ClassInfo) and base in repo.mro(tgt)):
+                continue
+            tparams = repo.find_method(tgt, "__init__").params[1:]
+            slots: Dict[str, Dict[str, str]] = {}
+            for pname, a in zip(tparams, c.args):
+                m = re.fullmatch(r"(corner|side|width)_(\d)(?:_point)?", pname)
+                if not m:
+                    continue
+                kind, slot = m.group(1), m.group(2)
+                idx = sorted(set(re.findall(r"(?:corner|side|width)_(\d)", ast.unparse(a))))
+                if kind == "corner":
+                    # the corner actually taken (the last one mentioned: '2 * self.center - self.corner_1' mirrors corner 1)
+                    idx = idx[-1:] if idx else []
+                slots.setdefault(slot, {})[kind] = idx[0] if len(idx) == 1 else "?"
+            if not slots:
+                continue
+            n += 1
+            problems = []
+            for slot, kinds in sorted(slots.items()):
+                if len(set(kinds.values())) > 1:
+                    problems.append(f"slot {slot} receives {kinds}")
+            r.check(not problems, init, f"{c.func.id}(...): corner/side/width indexes agree per slot {slots}", f"{cls.name}.__init__ builds {c.func.id} with mismatched arguments: " + "; ".join(problems) + " - the mirrored quarter gets the straight lengths of the other direction, so for side_1 != side_2 its seam points do not coincide with the first quarter (extra vertices, degenerate blocks)", c, key=f"{c.func.id}")
+    r.require(n >= 2, "fewer than two quarter constructions found in the spline-round sketches")
+    return r
+
+
+mirror_pairing.rule_id = "C11.MIRROR-PAIRING"
+
+RULES = [quad_map_rule, chop_coverage, chop_role, radial_convention, chain_source, mirror_pairing]
